@@ -2,7 +2,9 @@
 # usage: run.sh <property id> <quick|thorough> [extra args]
 # Rebuilds the harness against /repo's current working tree (hooks on), then runs the check.
 # exit 0: held; exit 1: VIOLATION line printed; exit 2: infrastructure problem / inconclusive.
-cd /verif/harness || exit 2
+ROOT=$(cd "$(dirname "$0")" && pwd)
+export VERIF_ROOT="$ROOT"
+cd "$ROOT/harness" || exit 2
 export GOFLAGS=-mod=mod GOPROXY=off GOSUMDB=off GOTOOLCHAIN=local
 cmp -s /repo/go.sum go.sum || cp /repo/go.sum go.sum
 BIN=$(mktemp -d "${TMPDIR:-/tmp}/vcheck.XXXXXX") || exit 2
